@@ -93,6 +93,15 @@ package eval
 //@   ensures (verr.Errors.arr == old(verr.Errors.arr) || fresh(verr.Errors)) && (verr.Expressions.arr == old(verr.Expressions.arr) || fresh(verr.Expressions))
 //@   modifies verr.Errors, verr.Expressions, elems(verr.Errors), elems(verr.Expressions)
 
+// Add: formats a message and records it. (That the formatted error is recorded as one more entry is ASSUMED:
+// it fails only for a format that wraps a *ValidationErrors with %w, which no caller in goa does.)
+//@ func (*ValidationErrors).Add
+//@   params verr def format vals
+//@   requires verr != nil
+//@   assumed grows: len(verr.Errors) > old(len(verr.Errors))
+//@   ensures (verr.Errors.arr == old(verr.Errors.arr) || fresh(verr.Errors)) && (verr.Expressions.arr == old(verr.Expressions.arr) || fresh(verr.Expressions))
+//@   modifies verr.Errors, verr.Expressions, elems(verr.Errors), elems(verr.Expressions)
+
 // validateSet: every validation failure of the set is recorded ("all errors of a phase are returned
 // together": a failure leaves Context.Errors non-nil, which is what RunDSL tests before finalizing).
 //@ func validateSet
@@ -124,27 +133,79 @@ package eval
 //@   loop 1 invariant run: Context != nil && Context == old(Context) && old(phase) <= phase && phase <= 4 && (phase < 4 ==> Context.Errors == old(Context.Errors)) && (Context.roots.arr == old(Context.roots.arr) || fresh(Context.roots)) && !valFailed
 //@   modifies Context.Errors, Context.roots, Context.Stack, Context.dslPackages, elems(Context.roots), phase
 
-// Roots (dependency sort): assumed here, checked by the bounded stand-in (all digraphs over <= 4 roots).
+// Roots (dependency sort). Proved here: a root that lists itself among its dependencies is reported, and
+// every registered root is in the list returned (none lost by the merge). The order ("dependencies first")
+// and the detection of longer cycles are NOT proved: they are checked by the bounded stand-in (all digraphs
+// over <= 4 roots, all registration orders). Environment: EvalName and DependsOn are functions of the root
+// (rootName, rootDeps); roots are identified by their name (ASSUMED: names.identify.roots -- eval.Register
+// refuses a second root with the same name, and a dependency is one of the registered roots).
+//@ smt (declare-fun rootName (Iface) String)
+//@ smt (declare-fun rootDeps (Iface) Slice)
+//@ iface goa.design/goa/v3/eval.Root.EvalName
+//@   params r
+//@   ensures result == rootName(r)
+//@   modifies nothing
+//@ iface goa.design/goa/v3/eval.Root.DependsOn
+//@   params r
+//@   ensures result == rootDeps(r) && (result.arr == 0 || allocated(result))
+//@   modifies nothing
+//@ macro namesIdentify() = forall a Iface, b Iface :: rootName(a) == rootName(b) ==> a == b
+
+//@ func sortDependenciesR
+//@   params root seen sorted depFunc
+//@   requires sorted != nil && seen != nil
+//@   callspec depFunc params r
+//@       ensures result.arr == 0 || allocated(result)
+//@       modifies nothing
+//@   let out = load(sorted)
+//@   ensures appended: len(out) >= old(len(load(sorted))) + 1 && out[len(out) - 1] == root
+//@   ensures kept: forall i int :: 0 <= i && i < old(len(load(sorted))) ==> out[i] == old(load(sorted)[i])
+//@   ensures array: out.arr == old(load(sorted).arr) || fresh(out)
+//@   loop 1 invariant grows: len(load(sorted)) >= old(len(load(sorted))) && (forall i int :: 0 <= i && i < old(len(load(sorted))) ==> load(sorted)[i] == old(load(sorted)[i])) && (load(sorted).arr == old(load(sorted).arr) || fresh(load(sorted)))
+//@   modifies mapOf(seen), cell(sorted), elems(load(sorted))
+
+//@ func sortDependencies
+//@   params roots root depFunc
+//@   callspec depFunc params r
+//@       ensures result.arr == 0 || allocated(result)
+//@       modifies nothing
+//@   ensures last.is.root: len(result) >= 1 && result[len(result) - 1] == root && fresh(result)
+//@   modifies nothing
+
 //@ func (*DSLContext).Roots
 //@   params c
-//@   trusted
+//@   locals sorted s r found
+//@   property C11
 //@   requires c != nil
-//@   ensures result1 == nil ==> fresh(result0) || len(result0) == 0
-//@   ensures result1 == nil ==> forall i int :: 0 <= i && i < len(c.roots) ==> 0 <= rootPos(i) && rootPos(i) < len(result0) && result0[rootPos(i)] == c.roots[i]
+//@   requires names.identify.roots: namesIdentify()
+//@   requires deps.exist: forall i int :: 0 <= i && i < len(c.roots) ==> ptr([]Root, rootDeps(c.roots[i])).arr <= alloc()
+//@   ensures* self.dependency.reported: result1 == nil ==> forall i int, j int :: 0 <= i && i < len(c.roots) && 0 <= j && j < len(ptr([]Root, rootDeps(c.roots[i]))) ==> rootName(ptr([]Root, rootDeps(c.roots[i]))[j]) != rootName(c.roots[i])
+//@   ensures* every.root.listed: result1 == nil ==> forall i int :: 0 <= i && i < len(c.roots) ==> (exists p int :: 0 <= p && p < len(result0) && result0[p] == c.roots[i])
+//@   ensures own.list: result1 == nil ==> fresh(result0) || len(result0) == 0
+//   -- first pass: no root of the prefix lists itself
+//@   loop 1 invariant no.self.dependency: ranged(1) == c.roots && (forall i int, j int :: 0 <= i && i <= rangeindex#1 && 0 <= j && j < len(ptr([]Root, rootDeps(c.roots[i]))) ==> rootName(ptr([]Root, rootDeps(c.roots[i]))[j]) != rootName(c.roots[i]))
+//@   loop 2 invariant scanning: ranged(1) == c.roots && 0 <= rangeindex#1 && rangeindex#1 < len(c.roots) && ranged(2) == ptr([]Root, rootDeps(c.roots[rangeindex#1])) && (forall j int :: 0 <= j && j <= rangeindex#2 ==> rootName(ranged(2)[j]) != rootName(c.roots[rangeindex#1]))
+//   -- last pass: the merged list holds every root visited so far (and every element of the current root's list visited so far)
+//@   loop 8 invariant listed: ranged(8) == c.roots && (sorted#2.arr == 0 || sinceEntry(sorted#2)) && (forall i int :: 0 <= i && i <= rangeindex#3 ==> (exists p int :: 0 <= p && p < len(sorted#2) && sorted#2[p] == c.roots[i]))
+//@   loop 9 invariant listed: ranged(8) == c.roots && 0 <= rangeindex#3 && rangeindex#3 < len(c.roots) && (sorted#2.arr == 0 || sinceEntry(sorted#2)) && sinceEntry(ranged(9)) && ranged(9).arr != sorted#2.arr && len(ranged(9)) >= 1 && ranged(9)[len(ranged(9)) - 1] == c.roots[rangeindex#3] && (forall i int :: 0 <= i && i < rangeindex#3 ==> (exists p int :: 0 <= p && p < len(sorted#2) && sorted#2[p] == c.roots[i])) && (forall k int :: 0 <= k && k <= rangeindex#6 ==> (exists p int :: 0 <= p && p < len(sorted#2) && sorted#2[p] == ranged(9)[k]))
+//@   loop 10 invariant not.found.yet: !found && ranged(10) == sorted#2 && (forall q int :: 0 <= q && q <= rangeindex#7 ==> rootName(ranged(10)[q]) != rootName(ranged(9)[rangeindex#6]))
 //@   modifies nothing
 
 //@ func RunDSL
 //@   locals roots executed start
 //@   property C11
 //@   requires Context != nil && allocated(Context) && phase == 0 && !valFailed
+//   -- environment (see Roots): roots are identified by their name; their dependency lists exist
+//@   requires names.identify.roots: namesIdentify()
+//@   requires deps.exist: forall i int :: 0 <= i && i < len(Context.roots) ==> ptr([]Root, rootDeps(Context.roots[i])).arr <= alloc()
 //@   let n0 = len(old(Context.roots))
 //@   let rootsOwn = Context.roots.arr == old(Context.roots.arr) || fresh(Context.roots)
 //@   ensures* all.phases.complete: result == nil ==> forall i int :: 0 <= i && i < n0 ==> select(dslDone, old(Context.roots[i])) && select(prepDone, old(Context.roots[i])) && select(valDone, old(Context.roots[i])) && select(finDone, old(Context.roots[i]))
 //@   ensures* failed.never.finalized: result != nil ==> phase < 4
 //@   ensures* finalized.only.if.valid: phase == 4 ==> !valFailed
 //@   ensures* all.registered.executed: result == nil ==> forall i int :: 0 <= i && i < len(Context.roots) ==> select(dslDone, Context.roots[i])
-//@   loop 1 invariant outer: allocated(roots) && Context.roots.arr != roots.arr && 0 <= executed && executed <= len(roots) && phase <= 1 && Context != nil && len(roots) > 0 && fresh(roots) && (forall j int :: 0 <= j && j < executed ==> select(dslDone, roots[j])) && 0 <= n0 && (forall i int :: 0 <= i && i < n0 ==> 0 <= rootPos(i) && rootPos(i) < len(roots) && roots[rootPos(i)] == old(Context.roots[i])) && rootsOwn && allocated(Context) && !valFailed
-//@   loop 2 invariant inner: allocated(roots) && Context.roots.arr != roots.arr && 0 - 1 <= rangeindex && 0 <= start && start <= len(roots) && executed == len(roots) && phase <= 1 && Context != nil && fresh(roots) && (forall j int :: 0 <= j && j < start + rangeindex + 1 ==> select(dslDone, roots[j])) && 0 <= n0 && (forall i int :: 0 <= i && i < n0 ==> 0 <= rootPos(i) && rootPos(i) < len(roots) && roots[rootPos(i)] == old(Context.roots[i])) && rootsOwn && allocated(Context) && !valFailed
-//@   loop 3 invariant prepare: allocated(roots) && Context.roots.arr != roots.arr && 0 - 1 <= rangeindex#2 && phase <= 2 && Context != nil && fresh(roots) && (phase < 2 ==> Context.Errors == nil) && (forall j int :: 0 <= j && j < len(roots) ==> select(dslDone, roots[j])) && (forall j int :: 0 <= j && j <= rangeindex#2 ==> select(prepDone, roots[j])) && 0 <= n0 && (forall i int :: 0 <= i && i < n0 ==> 0 <= rootPos(i) && rootPos(i) < len(roots) && roots[rootPos(i)] == old(Context.roots[i])) && rootsOwn && allocated(Context) && !valFailed
-//@   loop 4 invariant validate: allocated(roots) && Context.roots.arr != roots.arr && 0 - 1 <= rangeindex#3 && phase <= 3 && Context != nil && fresh(roots) && (forall j int :: 0 <= j && j < len(roots) ==> select(dslDone, roots[j])) && (forall j int :: 0 <= j && j < len(roots) ==> select(prepDone, roots[j])) && (forall j int :: 0 <= j && j <= rangeindex#3 ==> select(valDone, roots[j])) && 0 <= n0 && (forall i int :: 0 <= i && i < n0 ==> 0 <= rootPos(i) && rootPos(i) < len(roots) && roots[rootPos(i)] == old(Context.roots[i])) && rootsOwn && allocated(Context) && (valFailed ==> Context.Errors != nil)
-//@   loop 5 invariant finalize: allocated(roots) && Context.roots.arr != roots.arr && 0 - 1 <= rangeindex#4 && Context != nil && fresh(roots) && (phase < 4 ==> Context.Errors == nil) && (forall j int :: 0 <= j && j < len(roots) ==> select(dslDone, roots[j])) && (forall j int :: 0 <= j && j < len(roots) ==> select(prepDone, roots[j])) && (forall j int :: 0 <= j && j < len(roots) ==> select(valDone, roots[j])) && (forall j int :: 0 <= j && j <= rangeindex#4 ==> select(finDone, roots[j])) && 0 <= n0 && (forall i int :: 0 <= i && i < n0 ==> 0 <= rootPos(i) && rootPos(i) < len(roots) && roots[rootPos(i)] == old(Context.roots[i])) && rootsOwn && allocated(Context) && !valFailed && phase <= 4
+//@   loop 1 invariant outer: allocated(roots) && Context.roots.arr != roots.arr && 0 <= executed && executed <= len(roots) && phase <= 1 && Context != nil && len(roots) > 0 && fresh(roots) && (forall j int :: 0 <= j && j < executed ==> select(dslDone, roots[j])) && 0 <= n0 && (forall i int :: 0 <= i && i < n0 ==> (exists p int :: 0 <= p && p < len(roots) && roots[p] == old(Context.roots[i]))) && rootsOwn && allocated(Context) && !valFailed
+//@   loop 2 invariant inner: allocated(roots) && Context.roots.arr != roots.arr && 0 - 1 <= rangeindex && 0 <= start && start <= len(roots) && executed == len(roots) && phase <= 1 && Context != nil && fresh(roots) && (forall j int :: 0 <= j && j < start + rangeindex + 1 ==> select(dslDone, roots[j])) && 0 <= n0 && (forall i int :: 0 <= i && i < n0 ==> (exists p int :: 0 <= p && p < len(roots) && roots[p] == old(Context.roots[i]))) && rootsOwn && allocated(Context) && !valFailed
+//@   loop 3 invariant prepare: allocated(roots) && Context.roots.arr != roots.arr && 0 - 1 <= rangeindex#2 && phase <= 2 && Context != nil && fresh(roots) && (phase < 2 ==> Context.Errors == nil) && (forall j int :: 0 <= j && j < len(roots) ==> select(dslDone, roots[j])) && (forall j int :: 0 <= j && j <= rangeindex#2 ==> select(prepDone, roots[j])) && 0 <= n0 && (forall i int :: 0 <= i && i < n0 ==> (exists p int :: 0 <= p && p < len(roots) && roots[p] == old(Context.roots[i]))) && rootsOwn && allocated(Context) && !valFailed
+//@   loop 4 invariant validate: allocated(roots) && Context.roots.arr != roots.arr && 0 - 1 <= rangeindex#3 && phase <= 3 && Context != nil && fresh(roots) && (forall j int :: 0 <= j && j < len(roots) ==> select(dslDone, roots[j])) && (forall j int :: 0 <= j && j < len(roots) ==> select(prepDone, roots[j])) && (forall j int :: 0 <= j && j <= rangeindex#3 ==> select(valDone, roots[j])) && 0 <= n0 && (forall i int :: 0 <= i && i < n0 ==> (exists p int :: 0 <= p && p < len(roots) && roots[p] == old(Context.roots[i]))) && rootsOwn && allocated(Context) && (valFailed ==> Context.Errors != nil)
+//@   loop 5 invariant finalize: allocated(roots) && Context.roots.arr != roots.arr && 0 - 1 <= rangeindex#4 && Context != nil && fresh(roots) && (phase < 4 ==> Context.Errors == nil) && (forall j int :: 0 <= j && j < len(roots) ==> select(dslDone, roots[j])) && (forall j int :: 0 <= j && j < len(roots) ==> select(prepDone, roots[j])) && (forall j int :: 0 <= j && j < len(roots) ==> select(valDone, roots[j])) && (forall j int :: 0 <= j && j <= rangeindex#4 ==> select(finDone, roots[j])) && 0 <= n0 && (forall i int :: 0 <= i && i < n0 ==> (exists p int :: 0 <= p && p < len(roots) && roots[p] == old(Context.roots[i]))) && rootsOwn && allocated(Context) && !valFailed && phase <= 4
